@@ -139,7 +139,7 @@ class SchemaValidationContext:
                         f"{operation_type_str} root type must be Object type"
                         f"{if_provided_str}, it cannot be {root_type_str}.",
                         get_operation_type_node(schema, operation_type)
-                        or root_type.ast_node,
+                        or getattr(root_type, "ast_node", None),
                     )
         for root_type, operation_types in root_types_map.items():
             if len(operation_types) > 1:
